@@ -45,3 +45,18 @@ namespace verif_control {
 inline void adopt(amgcl::backend::crs<double> &A) { A.own_data = true; A.free_data(); }
 }
 void unit_control_adopt(amgcl::backend::crs<double> &A) { verif_control::adopt(A); }
+
+namespace verif_control {
+// G.resized-member-rewritten must report columns::rebuild: the member is only resize()d and the part of column i above the diagonal is never written
+struct columns {
+    std::vector<double> q; int m;
+    void rebuild(int rows) {
+        m = rows; q.resize(m * m);
+        for (int i = 0; i < m; ++i) {
+            q[i * m + i] = 1.0;
+            for (int j = i + 1; j < m; ++j) q[j * m + i] = 0.5;
+        }
+    }
+};
+}
+double unit_control_columns(int n) { verif_control::columns c; c.rebuild(n); c.rebuild(n + 1); return c.q[0]; }
